@@ -106,6 +106,8 @@ class BacktrackSolver(Solver):
         :param log_level: the log level as a string
         """
         super().__init__(problem, log_level)
+        if not 0 < stack_max_height <= 256:
+            raise ValueError("stack_max_height must be in [1, 256]: the index of the top of the stacks is stored on 8 bits")
         decision_domains = list(range(problem.shr_domain_nb)) if decision_domains is None else decision_domains
         logger.info(f"BacktrackSolver uses decision domains {decision_domains}")
         self.decision_domains = np.array(decision_domains, dtype=np.uint16)
@@ -543,6 +545,8 @@ def solve_one(
             statistics[STATS_IDX_SOLVER_SOLUTION_NB] += 1
             return get_solution(shr_domains_stack, stacks_top, dom_indices_arr, dom_offsets_arr)
         elif status == PROBLEM_UNBOUND:
+            if int(stacks_top[0]) + 2 >= len(shr_domains_stack):  # a domain heuristic adds at most 2 choice points
+                raise IndexError("choice point stack overflow: increase stack_max_height")
             dom_idx = var_heuristic_fct(var_heuristic_params, decision_domains, shr_domains_stack, stacks_top)
             events = dom_heuristic_fct(
                 dom_heuristic_params,
